@@ -77,6 +77,30 @@ func runC14(c *ShardCtx) {
 			}
 		}
 	}
+	// many labels: 70 failure labels in one grammar, every one thrown under its own recovery operator
+	// (inside two operators for other labels) and under none
+	{
+		idx++
+		if c.Mine(idx) {
+			const nl = 70
+			var rules []*peg.Rule
+			var eps []rtapi.RunOpts
+			for i := 0; i < nl; i++ {
+				li := "l" + itoa(i)
+				body := peg.Recover(peg.Seq(peg.Lit("a"), peg.Choice(peg.Lit("a"), peg.Throw(li))), peg.Lit("r"), li)
+				for k := 1; k <= 2 && i-k >= 0; k++ {
+					body = peg.Recover(body, peg.Lit("q"), "m"+itoa((i+nl-k*5)%nl)) // (operators for other labels around it)
+				}
+				rules = append(rules, &peg.Rule{Name: "R" + itoa(i), Expr: body}, &peg.Rule{Name: "N" + itoa(i), Expr: peg.Seq(peg.Lit("a"), peg.Choice(peg.Lit("a"), peg.Throw(li)))})
+				eps = append(eps, rtapi.RunOpts{MaxExpr: 800, Entrypoint: strp("R" + itoa(i))}, rtapi.RunOpts{MaxExpr: 800, Entrypoint: strp("N" + itoa(i))})
+			}
+			g := wrap(peg.Lit("z"), rules...)
+			f := *fam
+			f.opts = eps
+			f.inputs = [][]byte{[]byte("ar"), []byte("aa"), []byte("aq"), []byte("a")}
+			runGrammar(c, g, &f)
+		}
+	}
 	// two recovery operators in every arrangement (see twoRecoveryFamily)
 	for _, g := range twoRecoveryFamily(c.Thorough()) {
 		idx++
